@@ -292,7 +292,7 @@ PROPS['C18'] = dict(
                   'cobra flag parsing, file resources and the per-format rdfio wrappers are exercised end to end only'],
     assumptions=['label injectivity of the output follows from the isomorphism oracle; the label providers themselves are the subject of C14'],
     explanation='theorems: the resolved type is independent of the iteration order of the extension map for a consistent table (and the live table is checked to be consistent on every run), explicit types and file extensions are not overridden; model = implementation on generated resources; end-to-end conversions through the built binary with an isomorphism oracle',
-    level_text='Proof for the type resolution (C18_type_resolution_order_independent, C18_alias_wins, C18_extension_beats_sniffing); the conversions themselves by exploration through the built command line tool.',
+    level_text='Proof for the type resolution (C18_type_resolution_order_independent, C18_alias_wins, C18_extension_beats_sniffing) and for the conversions among N-Triples and N-Quads over all inputs (C18_nt_nq_conversion_preserves: decode, write again with either ASCII setting, decode: the same quads); the other format pairs, the output parameters and the blank node labelling by exploration through the built command line tool.',
     level_note='Fixes made while building this check: named graphs merged into triples-only outputs; content sniffing overriding the file extension.',
 )
 
